@@ -85,6 +85,7 @@ type Exec struct {
 	entry    *State
 	top      *Frame
 	oblNames map[string]int
+	havocLog *[]havocRec // scalar locations havocked by the contract being applied
 }
 
 func (ex *Exec) note(format string, args ...interface{}) {
@@ -965,6 +966,9 @@ func (ex *Exec) execBlock(fr *Frame, st *State, b *ssa.BasicBlock, rets *[]retRe
 			ex.note("go statement in %s: spawned body verified separately, no effect on the spawner", fr.fn)
 		case *ssa.Send:
 			ex.note("channel send in %s: abstracted (no effect on modelled state)", fr.fn)
+			if inv := ex.chanInv(st, x.X.Type(), ex.val(fr, x.X)); inv != nil {
+				ex.check("chaninv", "send", x.Pos(), st, inv)
+			}
 		case *ssa.Select:
 			fr.regs[x] = ex.execSelect(fr, st, x)
 		case *ssa.Panic:
@@ -1104,7 +1108,12 @@ func (ex *Exec) execUnOp(fr *Frame, st *State, x *ssa.UnOp) Value {
 			tt := x.Type().(*types.Tuple)
 			fv := freshValue("recv", tt.At(0).Type())
 			st.assume(st.wf(fv))
-			tv.E = []Value{fv, freshValue("recvok", tt.At(1).Type())}
+			okv := freshValue("recvok", tt.At(1).Type())
+			tv.E = []Value{fv, okv}
+			// a value that was really received satisfies the channel element invariant
+			if inv := ex.chanInv(st, tt.At(0).Type(), fv); inv != nil {
+				st.assume(Implies(okv.(Sc).T, inv))
+			}
 			return tv
 		}
 		fv := freshValue("recv", x.Type())
@@ -1640,6 +1649,23 @@ func (ex *Exec) runDefers(fr *Frame, st *State) {
 	}
 }
 
+// chanInv: the channel element invariant of a named element type T, written in T's package as
+// the specification macro `chaninv_T(x)`: checked where a value is sent, assumed for a value
+// that was received. It may talk about the value only (not about heap contents, which can
+// change between send and receive).
+func (ex *Exec) chanInv(st *State, t types.Type, v Value) *Term {
+	nt, ok := t.(*types.Named)
+	if !ok || nt.Obj().Pkg() == nil {
+		return nil
+	}
+	m := ex.P.macros[nt.Obj().Pkg().Path()+":chaninv_"+nt.Obj().Name()]
+	if m == nil || len(m.Params) != 1 {
+		return nil
+	}
+	env := &SpecEnv{ex: ex, st: st, vars: map[string]Value{m.Params[0]: v}, ctx: True, pkg: nt.Obj().Pkg(), assume: true}
+	return env.evalBool(m.Body)
+}
+
 func (ex *Exec) execSelect(fr *Frame, st *State, x *ssa.Select) Value {
 	ex.note("select in %s: nondeterministic choice, received values fresh", fr.fn)
 	tt := x.Type().(*types.Tuple)
@@ -1652,6 +1678,14 @@ func (ex *Exec) execSelect(fr *Frame, st *State, x *ssa.Select) Value {
 	}
 	st.assume(And(SLe(lo, idx), SLt(idx, BVi(int64(n), 64))))
 	tv.E = append(tv.E, Sc{idx, tt.At(0).Type()})
+	// values offered for sending satisfy the channel element invariant
+	for _, s := range x.States {
+		if s.Send != nil {
+			if inv := ex.chanInv(st, s.Send.Type(), ex.val(fr, s.Send)); inv != nil {
+				ex.check("chaninv", "send", x.Pos(), st, inv)
+			}
+		}
+	}
 	for i := 1; i < tt.Len(); i++ {
 		fv := freshValue("selrecv", tt.At(i).Type())
 		st.assume(st.wf(fv))
